@@ -485,6 +485,8 @@ pub enum Subject {
     /// anywhere), against the reference built with `boxed()` at every node: the two erasure
     /// wrappers must be equally transparent
     DynRef { grammar: G },
+    /// statically typed zoo grammar behind a `Cache`, inputs in short-lived / reused buffers
+    ZooCache { z: usize },
 }
 
 #[derive(Clone, Debug, Serialize, Deserialize)]
@@ -654,105 +656,153 @@ impl Cached for CG {
     }
 }
 
-/// History through a `Cache`: every operation materialises its input as a fresh, short-lived
-/// allocation, so `Cache::get` really hands the stored parser out at many different lifetimes.
-fn run_cache_history(g: &G, pool: &[Vec<u8>], ops: &[Op]) -> Vec<OpResult> {
-    let cache: Cache<CG> = Cache::new(CG(g.clone()));
-    let mut extra: Vec<Option<Cache<CG>>> = vec![];
-    let mut out = Vec::new();
-    // slot 0 = the cache; Derive/CloneH create further caches from the same AST (a Cache is not Clone);
-    // through each, parses go via get() or via a clone of get() taken at the input's own lifetime.
-    for (i, op) in ops.iter().enumerate() {
-        match op {
-            Op::Parse { h, inp, mode, refs, abort } => {
-                if *inp >= pool.len() {
-                    continue;
-                }
-                let c: &Cache<CG> = if *h == 0 {
-                    &cache
-                } else {
-                    match extra.get(*h - 1) {
-                        Some(Some(c)) => c,
-                        _ => continue,
-                    }
-                };
-                let short: Vec<u8> = pool[*inp].iter().map(|s| u8::from_sym(*s)).collect();
-                hook::begin_op(*abort, u64::MAX, u64::MAX);
-                hook::begin_ticks(u64::MAX);
-                let o = {
-                    let p = c.get();
-                    match refs {
-                        0 => exec::<&[u8], _, _>(p, || &short[..], *mode, state_seed(*inp)),
-                        1 => {
-                            let q = p.clone();
-                            exec::<&[u8], _, _>(&q, || &short[..], *mode, state_seed(*inp))
+/// History through a `Cache`: every operation materialises its input as a short-lived value, so
+/// `Cache::get` really hands the stored parser out at many different lifetimes. With `reuse`, the
+/// inputs of all operations are written into the same two buffers (`clear()` + refill, like a line
+/// buffer in a read loop): consecutive inputs then live at the SAME ADDRESS, often with the same
+/// length, and differ only in content — anything a parser value remembers about "the input at this
+/// address" from an earlier parse is wrong for the next one.
+macro_rules! cache_history_fn {
+    ($name:ident, $C:ty, $Buf:ty, $In:ty) => {
+        fn $name(mk_cache: &dyn Fn() -> Cache<$C>, npool: usize, fill: &dyn Fn(usize, &mut $Buf), reuse: bool, ops: &[Op]) -> Vec<OpResult> {
+            let cache: Cache<$C> = mk_cache();
+            let mut extra: Vec<Option<Cache<$C>>> = vec![];
+            let mut out = Vec::new();
+            let mut buf1: $Buf = <$Buf>::with_capacity(256);
+            let mut buf2: $Buf = <$Buf>::with_capacity(256);
+            // slot 0 = the cache; Derive/CloneH create further caches from the same source (a Cache is not Clone);
+            // through each, parses go via get() or via a clone of get() taken at the input's own lifetime.
+            for (i, op) in ops.iter().enumerate() {
+                match op {
+                    Op::Parse { h, inp, mode, refs, abort } => {
+                        if *inp >= npool {
+                            continue;
                         }
-                        _ => {
-                            let q = Rc::new(p.clone());
-                            exec::<&[u8], _, _>(&&q, || &short[..], *mode, state_seed(*inp))
+                        let c: &Cache<$C> = if *h == 0 {
+                            &cache
+                        } else {
+                            match extra.get(*h - 1) {
+                                Some(Some(c)) => c,
+                                _ => continue,
+                            }
+                        };
+                        let mut fresh_buf: $Buf = <$Buf>::new();
+                        let short: &$Buf = if reuse {
+                            buf1.clear();
+                            fill(*inp, &mut buf1);
+                            &buf1
+                        } else {
+                            fill(*inp, &mut fresh_buf);
+                            &fresh_buf
+                        };
+                        hook::begin_op(*abort, u64::MAX, u64::MAX);
+                        hook::begin_ticks(u64::MAX);
+                        let o = {
+                            let p = c.get();
+                            match refs {
+                                0 => exec::<$In, _, _>(p, || &short[..], *mode, state_seed(*inp)),
+                                1 => {
+                                    let q = p.clone();
+                                    exec::<$In, _, _>(&q, || &short[..], *mode, state_seed(*inp))
+                                }
+                                _ => {
+                                    let q = Rc::new(p.clone());
+                                    exec::<$In, _, _>(&&q, || &short[..], *mode, state_seed(*inp))
+                                }
+                            }
+                        };
+                        let (_, _, fired) = hook::end_op();
+                        hook::end_ticks();
+                        drop(fresh_buf);
+                        out.push(OpResult { nested: false, op: i, key: (*inp, mode_ix(*mode), *abort), form: 12, outcome: o, abort_fired: fired });
+                    }
+                    Op::Derive { .. } | Op::CloneH { .. } => extra.push(Some(mk_cache())),
+                    Op::CloneMany { .. } => {}
+                    Op::DropH { h } => {
+                        if *h > 0 {
+                            if let Some(s) = extra.get_mut(*h - 1) {
+                                *s = None;
+                            }
                         }
                     }
-                };
-                let (_, _, fired) = hook::end_op();
-                hook::end_ticks();
-                drop(short);
-                out.push(OpResult { nested: false, op: i, key: (*inp, mode_ix(*mode), *abort), form: 12, outcome: o, abort_fired: fired });
-            }
-            Op::Derive { .. } | Op::CloneH { .. } => extra.push(Some(Cache::new(CG(g.clone())))),
-            Op::CloneMany { .. } => {}
-            Op::DropH { h } => {
-                if *h > 0 {
-                    if let Some(s) = extra.get_mut(*h - 1) {
-                        *s = None;
-                    }
-                }
-            }
-            Op::Reenter { h, inp, mode, at, h2, inp2, mode2 } => {
-                if *inp >= pool.len() || *inp2 >= pool.len() {
-                    continue;
-                }
-                let pick = |h: usize| -> Option<&Cache<CG>> {
-                    if h == 0 {
-                        Some(&cache)
-                    } else {
-                        extra.get(h - 1).and_then(|c| c.as_ref())
-                    }
-                };
-                let (Some(c1), Some(c2)) = (pick(*h), pick(*h2)) else { continue };
-                let short1: Vec<u8> = pool[*inp].iter().map(|s| u8::from_sym(*s)).collect();
-                let short2: Vec<u8> = pool[*inp2].iter().map(|s| u8::from_sym(*s)).collect();
-                let inner: std::cell::RefCell<Option<Outcome>> = std::cell::RefCell::new(None);
-                {
-                    let inner_ref = &inner;
-                    let short2 = &short2;
-                    let f = move || {
+                    Op::Reenter { h, inp, mode, at, h2, inp2, mode2 } => {
+                        if *inp >= npool || *inp2 >= npool {
+                            continue;
+                        }
+                        let pick = |h: usize| -> Option<&Cache<$C>> {
+                            if h == 0 {
+                                Some(&cache)
+                            } else {
+                                extra.get(h - 1).and_then(|c| c.as_ref())
+                            }
+                        };
+                        let (Some(c1), Some(c2)) = (pick(*h), pick(*h2)) else { continue };
+                        let (mut f1, mut f2): ($Buf, $Buf) = (<$Buf>::new(), <$Buf>::new());
+                        let (short1, short2): (&$Buf, &$Buf) = if reuse {
+                            buf1.clear();
+                            fill(*inp, &mut buf1);
+                            buf2.clear();
+                            fill(*inp2, &mut buf2);
+                            (&buf1, &buf2)
+                        } else {
+                            fill(*inp, &mut f1);
+                            fill(*inp2, &mut f2);
+                            (&f1, &f2)
+                        };
+                        let inner: std::cell::RefCell<Option<Outcome>> = std::cell::RefCell::new(None);
+                        {
+                            let inner_ref = &inner;
+                            let f = move || {
+                                hook::begin_op(0, u64::MAX, u64::MAX);
+                                hook::begin_ticks(u64::MAX);
+                                let o = exec::<$In, _, _>(c2.get(), || &short2[..], *mode2, state_seed(*inp2));
+                                hook::end_op();
+                                hook::end_ticks();
+                                *inner_ref.borrow_mut() = Some(o);
+                            };
+                            let b: Box<dyn FnOnce() + '_> = Box::new(f);
+                            // SAFETY: taken or cleared before anything it borrows goes out of scope
+                            let b: Box<dyn FnOnce() + 'static> = unsafe { std::mem::transmute(b) };
+                            hook::set_reenter(*at, b);
+                        }
                         hook::begin_op(0, u64::MAX, u64::MAX);
                         hook::begin_ticks(u64::MAX);
-                        let o = exec::<&[u8], _, _>(c2.get(), || &short2[..], *mode2, state_seed(*inp2));
+                        let o = exec::<$In, _, _>(c1.get(), || &short1[..], *mode, state_seed(*inp));
                         hook::end_op();
                         hook::end_ticks();
-                        *inner_ref.borrow_mut() = Some(o);
-                    };
-                    let b: Box<dyn FnOnce() + '_> = Box::new(f);
-                    // SAFETY: taken or cleared before anything it borrows goes out of scope
-                    let b: Box<dyn FnOnce() + 'static> = unsafe { std::mem::transmute(b) };
-                    hook::set_reenter(*at, b);
+                        hook::clear_reenter();
+                        if let Some(io) = inner.into_inner() {
+                            out.push(OpResult { nested: true, op: i, key: (*inp2, mode_ix(*mode2), 0), form: 12, outcome: io, abort_fired: false });
+                        }
+                        out.push(OpResult { nested: false, op: i, key: (*inp, mode_ix(*mode), 0), form: 12, outcome: o, abort_fired: false });
+                    }
+                    Op::MoveH { .. } | Op::Nop => {}
                 }
-                hook::begin_op(0, u64::MAX, u64::MAX);
-                hook::begin_ticks(u64::MAX);
-                let o = exec::<&[u8], _, _>(c1.get(), || &short1[..], *mode, state_seed(*inp));
-                hook::end_op();
-                hook::end_ticks();
-                hook::clear_reenter();
-                if let Some(io) = inner.into_inner() {
-                    out.push(OpResult { nested: true, op: i, key: (*inp2, mode_ix(*mode2), 0), form: 12, outcome: io, abort_fired: false });
-                }
-                out.push(OpResult { nested: false, op: i, key: (*inp, mode_ix(*mode), 0), form: 12, outcome: o, abort_fired: false });
             }
-            Op::MoveH { .. } | Op::Nop => {}
+            out
+        }
+    };
+}
+
+cache_history_fn!(run_cache_history_u8, CG, Vec<u8>, &[u8]);
+cache_history_fn!(run_cache_history_str, ZooH, String, &str);
+
+/// The statically typed zoo behind a `Cache` (boxed so that one `Cached` type serves all of them).
+struct ZooH(usize);
+impl Cached for ZooH {
+    type Parser<'src> = chumsky::Boxed<'src, 'src, &'src str, Val, zoo::ExS<'src>>;
+    fn make_parser<'src>(self) -> Self::Parser<'src> {
+        match self.0 {
+            0 => zoo::memo().boxed(),
+            1 => zoo::pratt().boxed(),
+            2 => zoo::rx().boxed(),
+            3 => zoo::valid().boxed(),
+            4 => zoo::rx2().boxed(),
+            5 => zoo::list().boxed(),
+            6 => zoo::arith().boxed(),
+            _ => zoo::sexp().boxed(),
         }
     }
-    out
 }
 
 /// Visitor over the statically typed zoo (each grammar has its own opaque type).
@@ -784,6 +834,24 @@ impl<'a, 'r> ZooVisitor<'a, (Vec<Op>, Ran)> for ZooDrive<'a, 'r> {
         let fresh = move || f();
         let mk = move |i: usize| &texts[i][..];
         drive_plain::<&str, P>(&fresh, &fresh, &mk, texts.len(), self.plan, self.pristine)
+    }
+}
+
+struct ZooCacheDrive<'a, 'r> {
+    z: usize,
+    texts: &'a [String],
+    plan: Plan<'r>,
+    pristine: bool,
+    reuse: bool,
+}
+impl<'a, 'r> ZooVisitor<'a, (Vec<Op>, Ran)> for ZooCacheDrive<'a, 'r> {
+    fn visit<P: Parser<'a, &'a str, Val, zoo::ExS<'a>> + Clone + 'a>(self, f: fn() -> P) -> (Vec<Op>, Ran) {
+        let (texts, z, reuse) = (self.texts, self.z, self.reuse);
+        let fresh = move || f();
+        let mk = move |i: usize| &texts[i][..];
+        // reference: the grammar itself, freshly built, on the persistent pool texts; history: the same
+        // grammar behind a Cache, fed from short-lived (and usually reused) buffers
+        drive::<&str, P>(&fresh, &mk, texts.len(), self.plan, self.pristine, &|ops| run_cache_history_str(&|| Cache::new(ZooH(z)), texts.len(), &|i, buf: &mut String| buf.push_str(&texts[i]), reuse, ops))
     }
 }
 
@@ -858,8 +926,12 @@ pub fn run_spec(subject: &Subject, pool_syms: &[Vec<u8>], pool_text: &[String], 
         }
         Subject::CacheDyn { grammar } => {
             let g = grammar;
-            drive::<&[u8], BP<'_, &[u8]>>(&|| build::<&[u8]>(g), &move |i: usize| &toks[i][..], n, plan, pristine, &|ops| run_cache_history(g, pool_syms, ops))
+            let reuse = reader_seed & 3 != 0;
+            drive::<&[u8], BP<'_, &[u8]>>(&|| build::<&[u8]>(g), &move |i: usize| &toks[i][..], n, plan, pristine, &|ops| {
+                run_cache_history_u8(&|| Cache::new(CG(g.clone())), n, &|i, buf: &mut Vec<u8>| buf.extend(pool_syms[i].iter().map(|s| u8::from_sym(*s))), reuse, ops)
+            })
         }
+        Subject::ZooCache { z } => with_zoo(*z, ZooCacheDrive { z: *z, texts: pool_text, plan, pristine, reuse: reader_seed & 3 != 0 }),
     }
 }
 
@@ -876,6 +948,7 @@ fn subject_shown(s: &Subject) -> String {
     match s {
         Subject::Dyn { grammar, kind } => format!("dyn[{:?}] {}", kind, gram::sexpr(grammar)),
         Subject::Zoo { z } => format!("zoo::{}", zoo::ZOO_NAMES[*z]),
+        Subject::ZooCache { z } => format!("Cache[zoo::{}] (inputs in reused buffers)", zoo::ZOO_NAMES[*z]),
         Subject::CacheDyn { grammar } => format!("Cache[&[u8]] {}", gram::sexpr(grammar)),
         Subject::DynRef { grammar } => format!("&dyn-at-every-node[&[u8]] {}", gram::sexpr(grammar)),
     }
@@ -883,7 +956,7 @@ fn subject_shown(s: &Subject) -> String {
 
 fn pool_shown(c: &HistCase) -> Vec<String> {
     match &c.subject {
-        Subject::Zoo { .. } => c.pool_text.clone(),
+        Subject::Zoo { .. } | Subject::ZooCache { .. } => c.pool_text.clone(),
         _ => c.pool_syms.iter().map(|v| gram::show_input(v)).collect(),
     }
 }
@@ -1148,12 +1221,12 @@ fn short(o: &Outcome) -> String {
 pub fn gen_case(seed: u64, idx: u64) -> Option<(HistCase, Rng, GenOpsCfg)> {
     let mut rng = Rng::for_case(seed, "histsim", idx);
     let cfg = GenOpsCfg { max_ops: *rng.pick(&[4usize, 6, 8, 12]), p_abort: *rng.pick(&[(0u64, 1u64), (1, 8), (1, 4), (1, 2)]) };
-    let pick = rng.below(10);
+    let pick = rng.below(11);
     let reader_seed = rng.next_u64();
     let pristine = rng.chance(1, 8);
     let clone_nodes = rng.chance(1, 3);
-    if pick == 0 {
-        // zoo grammar, random history
+    if pick == 0 || pick == 10 {
+        // zoo grammar (10: behind a Cache, inputs in reused buffers), random history
         let z = rng.usize(zoo::ZOO_NAMES.len());
         let all = zoo::pool(z);
         let n = rng.range(2, all.len() as u64) as usize;
@@ -1161,7 +1234,8 @@ pub fn gen_case(seed: u64, idx: u64) -> Option<(HistCase, Rng, GenOpsCfg)> {
         for _ in 0..n {
             texts.push(all[rng.usize(all.len())].to_string());
         }
-        return Some((HistCase { subject: Subject::Zoo { z }, pool_syms: vec![], pool_text: texts, ops: vec![], reader_seed, pristine, clone_nodes }, rng, cfg));
+        let subject = if pick == 0 { Subject::Zoo { z } } else { Subject::ZooCache { z } };
+        return Some((HistCase { subject, pool_syms: vec![], pool_text: texts, ops: vec![], reader_seed, pristine, clone_nodes }, rng, cfg));
     }
     let is_str = pick == 1 || pick == 2;
     let mut gcfg = GenCfg::swarm(&mut rng, true);
@@ -1169,6 +1243,15 @@ pub fn gen_case(seed: u64, idx: u64) -> Option<(HistCase, Rng, GenOpsCfg)> {
     gcfg.allow_memo = rng.chance(1, 2);
     gcfg.allow_rec = rng.chance(1, 3);
     gcfg.allow_state = rng.chance(1, 2);
+    // text parsers / regex on the StrInput subjects (&[u8], &str, Cache over &[u8]); padded() everywhere
+    if matches!(pick, 1 | 2 | 5 | 6 | 7 | 8) {
+        gcfg.allow_text = rng.chance(1, 4);
+        gcfg.allow_regex = gcfg.allow_text && rng.chance(2, 3);
+    }
+    gcfg.allow_pad = gcfg.allow_text || rng.chance(1, 8);
+    if gcfg.allow_text || gcfg.allow_pad {
+        gcfg.nsym = 16;
+    }
     let g = gram::generate(&mut rng, &gcfg);
     let npool = rng.range(2, 5) as usize;
     let mut pool = Vec::new();
